@@ -7,6 +7,7 @@
 -/
 import PyndlProofs.Dict
 import PyndlProofs.Schedule
+import PyndlProofs.NdlSpec
 
 namespace Pyndl.C01
 open Pyndl List
@@ -70,6 +71,23 @@ theorem kernel_openmp_eq_spec {parts : List (List Nat)} (hp : PartsOk parts)
     rowFn n (execSteps alpha β₁ β₂ lam n w s) o
       = rwLearn (fun _ => alpha) β₁ β₂ lam (fun o => rowFn n w o) files.flatten o :=
   openmp_schedule_independent hp files n nOut alpha β₁ β₂ lam hrows hcues w hw s hv k hk o ho
+
+/-- **`ndl.ndl` = specification, end to end, with the right labels.** For every
+    event list the duplicate policy accepts (`None` without repeats, `True`
+    de-duplicated, `False` with every repetition), both methods, every
+    `n_outcomes_per_job ≥ 1` and `events_per_temporary_file ≥ 2`, within the
+    32-bit limits the code itself enforces: the model of the whole function —
+    counting, id maps, duplicate policy on ids, binary chunk files with the
+    header constants of preprocess.py read by the kernel reader with the
+    constants of ndl_parallel.pyx, kernels per part, labelling — returns a
+    matrix whose value at EVERY (outcome name, cue name) is the specification
+    on the policy-processed events, and reports the number of events. -/
+theorem ndl_eq_spec (cfg : NdlCfg) (hper : 2 ≤ cfg.perFile) (hjob : 1 ≤ cfg.perJob) (alpha β₁ β₂ lam : R)
+    (es es' : List (Event String String)) (hp : applyPolicyAll cfg.policy es = some es') (hfit : Fits32 es) :
+    ∃ w, ndlModel Generated.pyMagic Generated.pyVersion cfg alpha β₁ β₂ lam none es = .ok (w, es.length) ∧
+      ∀ o c, w.get o c = rwLearn (fun _ => alpha) β₁ β₂ lam (fun _ _ => (0 : R)) es' o c :=
+  ndlModel_eq_spec Generated.pyMagic Generated.pyVersion (by decide) (by decide) cfg hper hjob alpha β₁ β₂ lam
+    es es' hp hfit
 
 /-! Non-vacuity: a concrete 3-event sequence with a repeated cue, an outcome
 first seen late, an outcome-less event, β₁ ≠ β₂ and λ ≠ 1, evaluated in ℤ
